@@ -65,6 +65,8 @@ KERNELS = [
     "format_string@text:const char *",
     # include/st_string_priv.h: the case-insensitive search for one character
     "find_ci/3",
+    # include/st_format_numeric.h: the digit generator (one instantiation per width)
+    "uint_formatter<unsigned long>::format", "uint_formatter<unsigned int>::format",
 ]
 
 class Unsupported(Exception):
@@ -86,7 +88,7 @@ def dump_ast():
             f.write('#include "st_string.h"\n#include "st_utf_conv.h"\n#include "st_codecs.h"\n'
                     '#include "st_format.h"\n#include "st_stringstream.h"\n')
         s = ""
-        for flt in ("_ST_PRIVATE::", "utf_validation_t", "ST::assume_valid", "ST::substitute_invalid", "ST::check_validity", "digit_class_t", "ST::digit_", "alignment_t", "ST::align_", "ST::format_string"):
+        for flt in ("_ST_PRIVATE::", "utf_validation_t", "ST::assume_valid", "ST::substitute_invalid", "ST::check_validity", "digit_class_t", "ST::digit_", "alignment_t", "ST::align_", "ST::format_string", "uint_formatter"):
             r = subprocess.run([CLANG, "-std=gnu++20", "-fsyntax-only", "-I", os.path.join(tmp, "cfg"),
                                 "-I", os.path.join(REPO, "include"), "-Xclang", "-ast-dump=json",
                                 "-Xclang", "-ast-dump-filter=" + flt, tu],
@@ -243,8 +245,10 @@ class Env:
         self.outbits = None
         self.pending = None    # units copied to the output position by char_traits::copy, not yet stepped over
         self.ev = None         # lean name of the list of format_writer calls made so far (or None)
+        self.bout = None       # lean name of the text written backwards into a member buffer (`*--m_start = c`), or None
+        self.bpend = False     # `--m_start;` done, the store through `*m_start` not yet
     def copy(self):
-        e = Env(); e.vars = {k: dict(v) for k, v in self.vars.items()}; e.out = self.out; e.outbits = self.outbits; e.pending = self.pending; e.ev = self.ev
+        e = Env(); e.vars = {k: dict(v) for k, v in self.vars.items()}; e.out = self.out; e.outbits = self.outbits; e.pending = self.pending; e.ev = self.ev; e.bout = self.bout; e.bpend = self.bpend
         return e
 
 class Translator:
@@ -265,6 +269,17 @@ class Translator:
                 self.enums[o["name"]] = vals
             if o["kind"] == "FunctionDecl" and any(c["kind"] == "CompoundStmt" for c in inner(o)):
                 self.fdecls.setdefault(o["name"], []).append(o)
+            if o["kind"] == "ClassTemplateDecl":
+                for sp in inner(o):
+                    if sp.get("kind") != "ClassTemplateSpecializationDecl":
+                        continue
+                    targs = [c for c in inner(sp) if c.get("kind") == "TemplateArgument"]
+                    ta = targs[0].get("type", {}).get("qualType") if targs else "?"
+                    for m in inner(sp):
+                        if m.get("kind") == "CXXMethodDecl" and any(c["kind"] == "CompoundStmt" for c in inner(m)):
+                            fields = {f["name"]: qt(f) for f in inner(sp) if f.get("kind") == "FieldDecl"}
+                            m = dict(m); m["_fields"] = fields
+                            self.fdecls.setdefault("%s<%s>::%s" % (o["name"], ta, m["name"]), []).append(m)
         self.sigs = {}         # translated functions: name -> signature description
         # namespace-scope constants of integer type: evaluated here (their initialisers are constant expressions)
         self.arrays = {}
@@ -481,6 +496,11 @@ class Translator:
             av, bv = to_nat(av), to_nat(bv)
             return lines, self.signed_result(Val("%s * %s" % (av.p(), bv.p()), av.lo * bv.lo, av.hi * bv.hi), t), env
         if op in ("/", "%"):
+            if av.lo >= 0 and bv.lo == 0 and bv.hi > 0:
+                # a divisor that may be zero: the translation faults there (C++: undefined)
+                bv = to_nat(bv); dn = fn.fresh("d")
+                lines = lines + ["let %s ← chkNZ %s" % (dn, bv.p())]
+                bv = Val(dn, 1, bv.hi, atom=True)
             if av.lo < 0 or bv.lo <= 0:
                 raise Unsupported("/ or % with a possibly negative or zero operand")
             av, bv = to_nat(av), to_nat(bv)
@@ -541,6 +561,8 @@ class Translator:
         if k == "DeclRefExpr":
             name = n["referencedDecl"]["name"]
             if name not in env.vars:
+                if fn is not None and getattr(fn, "backbuf", None) and name == "digits":
+                    return [], lit(fn.backbuf["cap"]), env      # std::numeric_limits<uint_T>::digits, as the member buffer's declared size says
                 if name in self.consts:
                     return [], lit(self.consts[name]), env
                 raise Unsupported("unknown variable " + name)
@@ -942,6 +964,10 @@ class Translator:
             parts.append(env.out)
         if fn.has_ev:
             parts.append(env.ev)
+        if fn.backbuf:
+            if env.bpend or env.bout is None:
+                raise Unsupported("return with the member cursor in an unexpected state")
+            parts.append(env.bout)
         if not parts:
             return "()"
         return "(" + ", ".join(parts) + ")" if len(parts) > 1 else parts[0] if v is None or v.atom else "(" + parts[0] + ")"
@@ -1008,6 +1034,64 @@ class Translator:
         kind = s["kind"]
         if kind in ("ParenExpr", "ExprWithCleanups"):
             return self.effect(fn, inner(s)[0], env)
+        def member_of_this(x, name=None):
+            while x.get("kind") in ("ParenExpr", "ImplicitCastExpr"):
+                x = inner(x)[0]
+            if x.get("kind") == "MemberExpr" and inner(x) and inner(x)[0].get("kind") == "CXXThisExpr":
+                return x.get("name") if name is None else (x.get("name") == name)
+            return None if name is None else False
+        if fn.backbuf and kind == "UnaryOperator" and s["opcode"] == "--" and not s.get("isPostfix") and member_of_this(inner(s)[0], fn.backbuf["cursor"]):
+            if env.bpend:
+                raise Unsupported("the member cursor stepped twice without a store")
+            env = env.copy(); env.bpend = True
+            return [], env
+        if fn.backbuf and kind == "BinaryOperator" and s["opcode"] == "=":
+            lhs, rhs = inner(s)
+            x = lhs
+            while x["kind"] == "ParenExpr":
+                x = inner(x)[0]
+            cap = fn.backbuf["cap"]
+            # m_buffer[digits] = 0 : the terminator behind the text
+            if x["kind"] == "ArraySubscriptExpr" and member_of_this(inner(x)[0], fn.backbuf["buffer"]):
+                l0, iv, _ = self.expr(fn, inner(x)[1], env)
+                l1, tv, _ = self.expr(fn, rhs, env)
+                if l0 or l1 or iv.lo != iv.hi or iv.lo != cap or tv.lo != 0 or tv.hi != 0:
+                    raise Unsupported("store into the member buffer other than the terminator at its end")
+                return [], env
+            # m_start = &m_buffer[digits] : the cursor at the end, nothing written yet
+            if member_of_this(x, fn.backbuf["cursor"]):
+                y = rhs
+                while y["kind"] in ("ParenExpr", "ImplicitCastExpr"):
+                    y = inner(y)[0]
+                ok = y["kind"] == "UnaryOperator" and y["opcode"] == "&"
+                z = inner(y)[0] if ok else {}
+                if ok and z.get("kind") == "ArraySubscriptExpr" and member_of_this(inner(z)[0], fn.backbuf["buffer"]):
+                    l0, iv, _ = self.expr(fn, inner(z)[1], env)
+                    if not l0 and iv.lo == iv.hi == cap:
+                        env = env.copy(); env.bout = "([] : List Nat)"; env.bpend = False
+                        return [], env
+                raise Unsupported("the member cursor set other than to the end of the member buffer")
+            # *--m_start = e   /   (--m_start; ...) *m_start = e
+            if x["kind"] == "UnaryOperator" and x["opcode"] == "*":
+                y = inner(x)[0]
+                while y["kind"] in ("ParenExpr", "ImplicitCastExpr"):
+                    y = inner(y)[0]
+                pre = y["kind"] == "UnaryOperator" and y["opcode"] == "--" and not y.get("isPostfix") and member_of_this(inner(y)[0], fn.backbuf["cursor"])
+                plain = member_of_this(y, fn.backbuf["cursor"])
+                if (pre and not env.bpend) or (plain and env.bpend):
+                    if env.bout is None:
+                        raise Unsupported("store through the member cursor before it was set")
+                    while rhs["kind"] in ("ImplicitCastExpr", "ParenExpr") and (rhs["kind"] == "ParenExpr" or (rhs.get("castKind") in ("IntegralCast", "NoOp") and strip_cv(qt(rhs)) == "char")):
+                        rhs = inner(rhs)[0]
+                    l, v, env = self.expr(fn, rhs, env)
+                    if v.lo < 0 or v.hi > 255:
+                        v = self.convert(v, "unsigned char")
+                    v = to_nat(v)
+                    nb = fn.fresh("text"); env = env.copy()
+                    l = l + ["let %s ← pushFront %d %s %s" % (nb, cap, v.p(), env.bout)]
+                    env.bout = nb; env.bpend = False
+                    return l, env
+                raise Unsupported("store through the member cursor in an unexpected state")
         if kind == "BinaryOperator" and s["opcode"] == "=":
             lhs, rhs = inner(s)
             et = self.is_out_store(lhs, env)
@@ -1066,6 +1150,17 @@ class Translator:
                 ct = s.get("computeResultType", {}).get("qualType") or var["ctype"]
                 cur = self.convert(cur, ct)
                 it_ct = int_type(ct, self.enums)
+                if op in ("/", "%") and it_ct and not it_ct[0]:
+                    cur = to_nat(cur); rv = to_nat(self.convert(rv, ct))
+                    if rv.lo == 0 and rv.hi > 0:
+                        dn = fn.fresh("d")
+                        l = l + ["let %s ← chkNZ %s" % (dn, rv.p())]
+                        rv = Val(dn, 1, rv.hi, atom=True)
+                    if rv.lo <= 0:
+                        raise Unsupported("/= by a possibly zero value")
+                    v = Val("%s %s %s" % (cur.p(), op, rv.p()), 0, cur.hi) if op == "/" else Val("%s %% %s" % (cur.p(), rv.p()), 0, min(cur.hi, rv.hi - 1))
+                    l2, env = self.assign(fn, name, v, env)
+                    return l + l2, env
                 if it_ct and it_ct[0] and op in ("+", "-"):
                     # signed compound assignment: checked (a fault where C++ leaves the behaviour undefined)
                     a2, b2 = to_int(cur), to_int(rv)
@@ -1293,12 +1388,19 @@ class Translator:
         def ty(v):
             return "Int" if v["isint"] else "Nat"
         fixed_b = " ".join("(%s : %s)" % (v["name"], ty(v)) for c, v in fixed) + "".join(" (%s : Bool)" % f for f in flags)
-        carried_names = [v["name"] for c, v in carried] + (["out"] if has_out else [])
-        carried_tys = [ty(v) for c, v in carried] + (["List Nat"] if has_out else [])
+        has_b = fn.backbuf is not None
+        if has_b:
+            if env.bpend or env.bout is None:
+                raise Unsupported("loop entered with the member cursor in an unexpected state")
+            bout0 = env.bout; lenv.bout = "text"
+        carried_names = [v["name"] for c, v in carried] + (["out"] if has_out else []) + (["text"] if has_b else [])
+        carried_tys = [ty(v) for c, v in carried] + (["List Nat"] if has_out else []) + (["List Nat"] if has_b else [])
         def recur(e, i):
             if e.pending is not None:
                 raise Unsupported("loop iteration ends while a block copy is pending")
-            args = [e.vars[c]["name"] for c, v in carried] + ([e.out] if has_out else [])
+            if has_b and e.bpend:
+                raise Unsupported("loop iteration ends with the member cursor stepped but nothing stored")
+            args = [e.vars[c]["name"] for c, v in carried] + ([e.out] if has_out else []) + ([e.bout] if has_b else [])
             return ["  " * i + "%s %s %s fuel %s" % (lname, fn.mem_args, " ".join([v["name"] for c, v in fixed] + flags), " ".join(args))]
         def after_body(e, i):
             if inc is None:
@@ -1315,7 +1417,7 @@ class Translator:
         fn.aux += [sig,
                    "  | 0, %s => throw Fault.fuel" % ", ".join("_" for _ in (carried_names or ["_"])),
                    "  | fuel + 1, %s => do" % pats] + body_lines + [""]
-        args = [v["name"] for c, v in carried] + ([out0] if has_out else [])
+        args = [v["name"] for c, v in carried] + ([out0] if has_out else []) + ([bout0] if has_b else [])
         if not carried_names:
             args = ["()"]
         return pre + [pad + "%s %s %s fuel %s" % (lname, fn.mem_args, " ".join([v["name"] for c, v in fixed] + flags), " ".join(args))]
@@ -1390,8 +1492,16 @@ class Translator:
         fn = Fn(self, d)
         if as_name:
             fn.name = as_name
+        elif "::" in name or "<" in name:
+            fn.name = re.sub(r"[^A-Za-z0-9_]+", "_", name).strip("_")      # uint_formatter<unsigned long>::format -> uint_formatter_unsigned_long_format
         fn.loops = 0; fn.needs_fuel = False; fn.loopctx = []; fn.clones = {}; fn.arrays = {}
         fn.int_tables = set(); fn.local_arrays = set(); fn.cursors = cursor_vars(d); fn.has_ev = False
+        fn.backbuf = None
+        if d.get("_fields"):
+            bufs = [(k, t) for k, t in d["_fields"].items() if re.fullmatch(r"char\[\d+\]", strip_cv(t))]
+            curs = [k for k, t in d["_fields"].items() if strip_cv(t) == "char *"]
+            if len(bufs) == 1 and len(curs) == 1:
+                fn.backbuf = dict(buffer=bufs[0][0], cursor=curs[0], cap=int(re.search(r"\[(\d+)\]", bufs[0][1]).group(1)) - 1)
         # a function with several `const T *` parameters reads several source ranges: one list per parameter
         # (which parameters point into different ranges is stated in SEPARATE_RANGES; by default every `const T *` parameter of a
         # function points into the one range `mem`, as `utf8` and `end` of extract_utf8 do)
@@ -1501,9 +1611,13 @@ class Translator:
             rtys.append("List Nat")
         if fn.has_ev:
             rtys.append("List Ev")
+        if fn.backbuf:
+            rtys.append("List Nat")
         rty = " × ".join(rtys) if rtys else "Unit"
         uses_mem = uses_mem or fn.needs_fuel
         name = fn.name
+        if "::" in name or "<" in name:
+            name = re.sub(r"[^A-Za-z0-9_]+", "_", name).strip("_"); fn.name = name
         head = "def %s %s%s%s: M (%s) := do" % (name, (fn.mem_binders + " ") if uses_mem else "", "(fuel : Nat) " if fn.needs_fuel else "",
                                                   " ".join(binders) + (" " if binders else ""), rty)
         fn.aux = [x.replace("%RTY%", rty) for x in fn.aux]
